@@ -573,8 +573,7 @@ pub fn stream_aliasing(out: &mut Out, opts: &[&str]) {
 /// (s) SCALE: sizes that real data reaches and small generators do not — tokens, containers and
 /// whole documents just below, at and just above 2^8, 2^12, 2^16 and 2^18 (narrowing casts, fixed
 /// buffers and blocks, chunked copies, size caps, pre-sizing heuristics). Requests use run-length
-/// notation; beyond 24 000 characters the quadratic executable model answers `skip` and the case is
-/// decided by the independent oracles on the real code.
+/// notation; the executable model runs its `@[csimp]`-proved linear twins on them.
 pub fn stream_scale(out: &mut Out, thorough: bool, opts: &[&str]) {
     let mut l = |s: String, out: &mut Out| crate::exec_line(&s, out);
     let rs = |text: &str, o: &str| format!("parse str {} {}", o, cps_rle(text));
